@@ -39,10 +39,24 @@ def letters(i):
 
 
 def runtime_rlib():
-    c = sorted(glob.glob(os.path.join(vlib.BIN, "deps", "libeqlog_runtime-*.rlib")), key=os.path.getmtime)
-    if not c:
-        raise vlib.ToolError("no eqlog_runtime rlib in the harness target directory")
-    return c[-1]
+    """the rlib of /repo/eqlog-runtime as built for rt-driver (the target directory also holds the
+    registry runtime 0.8.0 that eqlog-eqlog links: ask cargo which artifact belongs to the path crate)"""
+    import json
+    r = vlib.run(["cargo", "build", "--offline", "--quiet", "-p", "rt-driver", "--message-format=json"], cwd=vlib.HARNESS, timeout=3600)
+    if r.returncode != 0:
+        raise vlib.ToolError("cargo build failed: " + r.stderr[-2000:])
+    found = []
+    for line in r.stdout.splitlines():
+        try:
+            m = json.loads(line)
+        except ValueError:
+            continue
+        if m.get("reason") == "compiler-artifact" and m.get("target", {}).get("name") == "eqlog_runtime" \
+                and "/repo/eqlog-runtime" in m.get("package_id", "") + m.get("manifest_path", ""):
+            found += [f for f in m.get("filenames", []) if f.endswith(".rlib")]
+    if not found:
+        raise vlib.ToolError("no eqlog_runtime rlib of /repo/eqlog-runtime among cargo's artifacts")
+    return found[-1]
 
 
 def run(tier, replay):
